@@ -308,7 +308,8 @@ def run(r) -> None:
     for kind in bodies.ROD_GRIDS:
         planar = bodies.rod_grid_is_planar(kind)
         nrot = len(bodies.rotations_2d() if planar else bodies.rotations_3d())
-        dens = [8] if not kind.startswith("surface") else [8, 1, 4, 12]
+        # 13, 16, 25: the caps gain one, one and two intermediate rings (markers at a FRACTION of the element radius) - up to 12 a cap is a single axis marker
+        dens = [8] if not kind.startswith("surface") else [8, 1, 4, 12, 13, 16, 25]
         for n_elems in (2, 3, 5):
             for taper in ((False, True, "reverse", "spindle", "spindle-rev") if kind.startswith("surface") else (False, True, "spindle")):
                 for bent in (False, True):
@@ -338,7 +339,7 @@ def run(r) -> None:
     two = [dict(kind_a=a, kind_b=b, dtype=dt, dx_idx=di, seed=r.seed) for grp in (pairs2, pairs3) for a in grp for b in grp
            for dt, di in ((("float64", 0), ("float32", 1)) if not quick or a == b or (a, b) in (("cylinder2d", "edge"), ("sphere", "element3"), ("plane", "cylinder3d")) else ())]
     r.run_cases("two-bodies-one-flow", "two_bodies", two)
-    r.bounds = {"rod_grids": bodies.ROD_GRIDS, "n_elems": [2, 3, 5], "taper": [False, True, "reverse", "spindle", "spindle-rev"], "bent": [False, True], "surface_density": [8, 1, 4, 12],
+    r.bounds = {"rod_grids": bodies.ROD_GRIDS, "n_elems": [2, 3, 5], "taper": [False, True, "reverse", "spindle", "spindle-rev"], "bent": [False, True], "surface_density": [8, 1, 4, 12, 13, 16, 25],
                 "rotations_3d": "24 cube rotations + 3 generic", "rotations_2d": 7, "rigid": bodies.RIGID, "unit_forces": "every marker x component", "body_velocity_basis": 6}
     r.extra["rule"] = "one state per unit marker force (marker x component) per (grid, body parameters, pose); full-interaction: one state per body kind/precision"
     r.assumptions = ["PyElastica rod/rigid-body containers as data holders; moments compared to 1e-12 (double precision body arithmetic)"]
